@@ -16,7 +16,10 @@ RULE = (
     "Oracle: reference evaluator; compared in raw-int, raw-gen, opt-int, opt-gen: outcome and full tree "
     "including trivia pairs and the children of @ rules. Non-trivial: the input contains a trivia character "
     "and the reference skipped trivia, gave trailing trivia back, or entered an @/$/! rule; distinct by "
-    "(grammar, rule, input, mode)."
+    "(grammar, rule, input, mode). Plus two deterministic matrices: every combination of a WHITESPACE and a "
+    "COMMENT definition (absent / each body, silent or not: 194 configurations) around seven fixed rules using "
+    "every modifier, with trivia in every gap of the base inputs; and every assignment of the five modifiers to "
+    "a chain of 2..3 (quick) / 2..4 (thorough) rules x three trivia settings x trivia in every subset of levels."
 )
 ASSUMPTIONS = [
     "reference semantics of DESIGN.md 3 (pest's skip = (WHITESPACE | COMMENT)*, atomicity nesting as in "
@@ -74,6 +77,22 @@ def trivia_inputs(rng, rules, starts, n):
     return out
 
 
+def run_matrices(ctx: Ctx, modes, idx, excluded):
+    """Deterministic matrices (pestverif/tmatrix.py): every trivia configuration x fixed main rules, and every
+    modifier chain of 2..3 (quick) / 2..4 (thorough) rules, all four modes against the reference."""
+    from pestverif import tmatrix
+
+    cases = tmatrix.trivia_cases(ctx.tier) + tmatrix.chain_cases(ctx.tier)
+    for k, (label, rules, calls) in enumerate(cases):
+        if k % 16 != idx:
+            continue
+        ctx.count("matrix_grammars:" + label.split("-")[0].rstrip("0123456789"))
+        tchars = trivia_chars(rules) or " #"
+        refdiff.check_grammar(ctx, modes, rules, calls, MODES, nontrivial_factory(tchars), excluded=excluded)
+    ctx.exhaustive.update({"complete": True, "matrix_grammars": len(cases),
+                           "matrix_calls": sum(len(c[2]) for c in cases)})
+
+
 def shards(tier: str):
     return [{"idx": i} for i in range(16)]
 
@@ -121,6 +140,7 @@ def run_shard(ctx: Ctx, spec):
                 ctx.sample({"grammar": gprint.grammar_text(rules), "inputs": inputs[:6]})
 
         t()
+        run_matrices(ctx, modes, spec["idx"], excluded)
     finally:
         modes.close()
 
